@@ -138,6 +138,137 @@ def check_history(hist):
     return None
 
 
+# ------------------------------------------------------------------------------------------------ elaborated histories
+# The property speaks about the ELABORATED design: after any history ending in a complete valid mapping, the exported
+# nets are exactly those of the final mapping.  The expected nets are computed from the history alone (a specification
+# view: last operation per port; a port reference denotes whatever that port is finally on), never from the objects.
+E_PORTS = ("a", "b")
+E_FORMS = ("call", "setattr", "connect", "replace")
+
+
+def elab_histories(rnd, n, maxlen):
+    tg = [("sig", k) for k in range(3)] + [("ref", i, p) for i in range(3) for p in E_PORTS] + [("noconn",), ("bit", 0),
+                                                                                              ("bit", 1), ("cat", 0)]
+    for _ in range(n):
+        L = rnd.randint(2, maxlen)
+        yield tuple((rnd.choice(E_FORMS + ("disconnect",)), rnd.randrange(3), rnd.choice(E_PORTS), rnd.choice(tg))
+                    for _ in range(L))
+
+
+def small_elab_histories():
+    """reference taken while the port is on X, port re-connected to Y afterwards (every X, Y); replaced references;
+    a reference that was replaced before the port got a no-connect"""
+    xs = [("sig", 0), ("ref", 2, "a"), ("noconn",), ("bit", 0), ("cat", 0)]
+    ys = [("sig", 1), ("ref", 2, "b"), ("bit", 1), ("noconn",)]
+    for x in xs:
+        for y in ys:
+            for f in ("setattr", "replace", "connect"):
+                yield (("setattr", 0, "a", x), ("setattr", 1, "a", ("ref", 0, "a")), (f, 0, "a", y))
+                yield (("setattr", 1, "a", ("ref", 0, "a")), ("setattr", 0, "a", x), (f, 0, "a", y))
+                yield (("setattr", 0, "a", x), ("setattr", 1, "a", ("ref", 0, "a")), (f, 1, "a", y), ("setattr", 0, "a", y))
+    for y in ys:
+        yield (("setattr", 1, "a", ("ref", 0, "a")), ("setattr", 1, "a", ("sig", 2)), ("setattr", 0, "a", y))
+        yield (("setattr", 1, "a", ("ref", 0, "a")), ("disconnect", 1, "a", None), ("setattr", 0, "a", y))
+
+
+def check_elab_history(hist):
+    import hdl21 as h
+    from rtc.meaning import package_meaning
+    E = h.ExternalModule(name="E2", port_list=[h.Inout(name="a"), h.Inout(name="b")], desc="", domain="c04")
+    top = h.Module(name="C04Top")
+    sigs = [top.add(h.Signal(name=f"s{k}")) for k in range(3)]
+    bus = top.add(h.Signal(name="bus", width=2))
+    insts = [top.add(E()(), name=f"i{k}") for k in range(3)]
+    view = {}
+
+    def obj(t):
+        if t[0] == "sig":
+            return sigs[t[1]]
+        if t[0] == "ref":
+            return getattr(insts[t[1]], t[2])
+        if t[0] == "bit":
+            return bus[t[1]]
+        if t[0] == "cat":
+            return h.Concat(bus[t[1]])
+        return h.NoConn()
+    w = {"elab_history": repr(hist)}
+    for step, (op, i, p, t) in enumerate(hist):
+        inst = insts[i]
+        if t is not None and t[0] == "ref" and (t[1], t[2]) == (i, p):
+            continue                                  # a port connected to itself: not a connection
+        if op in ("replace", "disconnect") and (i, p) not in view:
+            continue                                  # documented KeyError; covered by the data-structure histories
+        try:
+            if op == "call":
+                inst(**{p: obj(t)})
+            elif op == "setattr":
+                setattr(inst, p, obj(t))
+            elif op == "connect":
+                inst.connect(p, obj(t))
+            elif op == "replace":
+                inst.replace(p, obj(t))
+            else:
+                inst.disconnect(p)
+        except Exception as e:
+            return (f"elab.op-raises.{type(e).__name__}", f"step {step} of {hist!r}: {type(e).__name__}: {e}", w)
+        if op == "disconnect":
+            view.pop((i, p), None)
+        else:
+            view[(i, p)] = t
+    # completion: every port explicitly connected, or referenced by a connection that is still live
+    referenced = {(t[1], t[2]) for t in view.values() if t[0] == "ref"}
+    for i in range(3):
+        for p in E_PORTS:
+            if (i, p) not in view and (i, p) not in referenced:
+                view[(i, p)] = ("sig", 2)
+                insts[i].connect(p, sigs[2])
+    # a no-connected port that is also referenced is a different property's fault class (C02): not a valid end state
+    if any(view.get(k, ("",))[0] == "noconn" for k in referenced):
+        return None
+    # expected partition of the device terminals
+    parent = {}
+
+    def find(x):
+        parent.setdefault(x, x)
+        while parent[x] != x:
+            parent[x] = parent[parent[x]]
+            x = parent[x]
+        return x
+
+    def union(a, b):
+        parent[find(a)] = find(b)
+    for i in range(3):
+        for p in E_PORTS:
+            find(("dev", i, p))
+    for (i, p), t in view.items():
+        if t[0] == "sig":
+            union(("dev", i, p), ("sig", t[1]))
+        elif t[0] == "ref":
+            union(("dev", i, p), ("dev", t[1], t[2]))
+        elif t[0] in ("bit", "cat"):
+            union(("dev", i, p), ("bus", t[1]))
+    want = {}
+    for i in range(3):
+        for p in E_PORTS:
+            want.setdefault(find(("dev", i, p)), set()).add((f"i{i}", p))
+    want = {frozenset(v) for v in want.values()}
+    try:
+        pkg = h.to_proto(top)
+    except Exception as e:
+        return (f"elab.raises.{type(e).__name__}", f"{hist!r}: valid final mapping {sorted(view.items())} rejected: "
+                                                   f"{type(e).__name__}: {str(e)[:160]}", w)
+    got = set()
+    for net in package_meaning(pkg, "C04Top").nets:
+        devs = frozenset((t[1][0], t[2]) for t in net if t[0] == "dev")
+        if devs:
+            got.add(devs)
+    if got != want:
+        d = sorted(map(sorted, got ^ want))
+        return ("elab.nets", f"{hist!r}: final mapping {sorted(view.items())}: exported nets differ from the mapping's "
+                             f"in {d[:3]}", w)
+    return None
+
+
 def run(ctx):
     thorough = ctx.tier == "thorough"
     eng = mk_engine(contracts=ci.CONTRACTS, inline=ci.INLINE, field_classes=ci.FIELD_CLASSES)
@@ -169,11 +300,24 @@ def run(ctx):
              "step: returned value, whole conns view, Inv_conn, Inv_refs; distinct = distinct history; non-trivial = "
              "length >= 2",
         bound="length<=%d" % (6 if thorough else 4), key_of=repr, nontrivial=lambda hcase: len(hcase) >= 2)
+    cases = itertools.chain(small_elab_histories(), elab_histories(rnd, 20000 if thorough else 2500, 7 if thorough else 5))
+    ctx.run_bounded(
+        "elaborated-histories", cases, check_elab_history,
+        rule="call/setattr/connect/replace/disconnect histories over 3 instances x 2 scalar ports with signals, bus "
+             "bits, concatenations, no-connects and port references (taken while the referred port is on anything, "
+             "re-connected afterwards) as replaced and replacing objects; completed to a valid mapping, exported, and "
+             "the exported nets compared with the partition computed from the history alone; exhaustive "
+             "reference-then-reconnect family + seeded random histories",
+        bound="length<=%d" % (7 if thorough else 5), key_of=repr, nontrivial=lambda hcase: len(hcase) >= 2)
     return INFO
 
 
 def replay(payload):
     inp = payload.get("input") or {}
+    if "elab_history" in inp:
+        r = check_elab_history(eval(inp["elab_history"]))
+        print("replay:", r)
+        return 1 if r else 0
     if "history" in inp:
         r = check_history(eval(inp["history"]))
         print("replay:", r)
